@@ -160,6 +160,7 @@ def run(tier):
     chk.model("MC_GcmToy", cfg="MC_GcmToy_quick.cfg" if tier == "quick" else "MC_GcmToy.cfg", timeout=3000)
     cmds_all = gen(chk, tier)
     chk.exec_and_validate("T_GCM", cmds_all, keyfn, cost=cost, accel=True, pure_budget=14000000)
+    chk.first_use("T_GCM", cmds_all, keyfn, count=8, accel=True)
     # the fourth path: the arm64 kernel-plus-Go-glue code, transplanted onto the amd64 kernels
     gcmds = [dict(c) for c in cmds_all if c.get("path", "asm") == "asm"]
     keep = set(c["sc"] for c in gcmds if c["op"] == "gcm.aead")
